@@ -134,6 +134,13 @@ def run(ctx):
                                 ta = _q.Term("t", a, boost=rng.choice([1.0, 1.0, 2.0, 3.0]))
                                 tb = _q.Term("t", b)
                                 plan.append((rng.choice([_q.And, _q.And, _q.Or])([ta, tb]), rng.choice([1, 2, 3])))
+                    # positional sweep: a phrase of two frequent words, alone and next to / under another clause
+                    for _ in range(8):
+                        a, b, c = rng.sample(ws, 3)
+                        ph = _q.Phrase("t", [a, b], slop=rng.choice([1, 1, 2, 3]))
+                        shape = rng.choice([lambda: ph, lambda: _q.Or([ph, _q.Term("t", c)]), lambda: _q.And([ph, _q.Term("t", c)]),
+                                            lambda: _q.AndMaybe(ph, _q.Term("t", c)), lambda: _q.Or([ph, _q.Term("t", c, boost=2.0)])])
+                        plan.append((shape(), rng.choice([1, 2, 3, 5])))
                 for item in plan:
                     if item is not None:
                         q, k = item
